@@ -73,6 +73,8 @@ pub struct Project {
     pub manifest: String,
     /// Command prefix: "sim" in E1, the agent binary path in E2.
     pub agent: String,
+    /// Generator steps carry `hide_success = 1` (an n2 extension).
+    pub quiet_generator: bool,
 }
 
 /// Reference canonicaliser (DESIGN.md A2), independent of n2's.
@@ -444,6 +446,9 @@ impl Project {
                 if let Some(p) = &s.pool {
                     t.push_str(&format!("  pool = {}\n", p));
                 }
+                if self.quiet_generator && s.effect == Effect::Generator {
+                    t.push_str("  hide_success = 1\n");
+                }
                 rn
             };
             t.push_str("build");
@@ -501,10 +506,16 @@ impl Project {
             );
         }
         let mut tail = String::new();
+        if opts.via_vars && !self.defaults.is_empty() {
+            tail.push_str("top = .\n");
+        }
         for d in &self.defaults {
             tail.push_str("default");
             for t in d {
                 tail.push(' ');
+                if opts.via_vars && !t.starts_with('/') {
+                    tail.push_str("$top/");
+                }
                 tail.push_str(&spell(t, &mut rng));
             }
             tail.push('\n');
